@@ -33,3 +33,22 @@ else:
     s = s.replace('\nSEEDTABLE\n', '\n' + table + '\n')
 open(p, 'w').write(s)
 print(len(rows) - 2, 'rows')
+# ---- own mutants / benign refactorings
+op = os.path.join(V, 'seeded', 'own', 'results.jsonl')
+if os.path.exists(op):
+    last = {}
+    for l in open(op):
+        d = json.loads(l); last[d['mutant']] = d
+    exp = json.load(open(os.path.join(V, 'seeded', 'own', 'expected.json')))
+    r2 = ['| change | unedited suite passes with it | checks run → outcome |', '|---|---|---|']
+    for name in sorted(last):
+        if name not in exp: continue
+        d = last[name]
+        v = ', '.join('%s %s' % (k, x.lower()) for k, x in sorted(d['verdicts'].items()))
+        r2.append('| %s | %s | %s |' % (name, 'yes' if d['suite_passes_with_patch'] else 'no (the existing tests already catch it)', v))
+    t2 = '<!-- OWNTABLE-BEGIN -->\n' + '\n'.join(r2) + '\n<!-- OWNTABLE-END -->'
+    s = open(p).read()
+    if 'OWNTABLE-BEGIN' in s:
+        s = re.sub(r'<!-- OWNTABLE-BEGIN -->.*?<!-- OWNTABLE-END -->', lambda _: t2, s, flags=re.S)
+        open(p, 'w').write(s)
+    print(len(r2) - 2, 'own rows')
